@@ -6,6 +6,7 @@ import (
 	"net"
 	"strings"
 	"sync"
+	"sync/atomic"
 	"time"
 
 	"google.golang.org/grpc/credentials"
@@ -49,6 +50,7 @@ type noiseGrpcSessionConn struct {
 
 	closeOnce sync.Once
 	closeErr  error
+	closed    atomic.Bool
 }
 
 // Close closes the transport that this connection was established over.
@@ -56,10 +58,44 @@ type noiseGrpcSessionConn struct {
 // NOTE: This is part of the net.Conn interface.
 func (s *noiseGrpcSessionConn) Close() error {
 	s.closeOnce.Do(func() {
+		s.closed.Store(true)
 		s.closeErr = s.transport.Close()
 	})
 
 	return s.closeErr
+}
+
+// Read reads from this connection. Once the connection has been closed, or
+// the shared NoiseGrpcConn has moved on to a later connection, the cipher
+// state and the transport behind it are no longer ours: a late Read must not
+// consume the data of the connection that replaced this one.
+//
+// NOTE: This is part of the net.Conn interface.
+func (s *noiseGrpcSessionConn) Read(b []byte) (int, error) {
+	s.proxyConnMtx.RLock()
+	defer s.proxyConnMtx.RUnlock()
+
+	if s.closed.Load() || s.ProxyConn != s.transport {
+		return 0, net.ErrClosed
+	}
+
+	return s.read(b)
+}
+
+// Write writes to this connection, unless it has been closed or replaced
+// (see Read): a late Write must not inject data into the connection that
+// replaced this one.
+//
+// NOTE: This is part of the net.Conn interface.
+func (s *noiseGrpcSessionConn) Write(b []byte) (int, error) {
+	s.proxyConnMtx.RLock()
+	defer s.proxyConnMtx.RUnlock()
+
+	if s.closed.Load() || s.ProxyConn != s.transport {
+		return 0, net.ErrClosed
+	}
+
+	return s.write(b)
 }
 
 // NewNoiseGrpcConn creates a new noise connection using given local ECDH key.
@@ -105,6 +141,11 @@ func (c *NoiseGrpcConn) Read(b []byte) (n int, err error) {
 	c.proxyConnMtx.RLock()
 	defer c.proxyConnMtx.RUnlock()
 
+	return c.read(b)
+}
+
+// read is Read for callers that hold proxyConnMtx.
+func (c *NoiseGrpcConn) read(b []byte) (n int, err error) {
 	c.nextMsgMtx.Lock()
 	defer c.nextMsgMtx.Unlock()
 
@@ -147,6 +188,11 @@ func (c *NoiseGrpcConn) Write(b []byte) (int, error) {
 	c.proxyConnMtx.RLock()
 	defer c.proxyConnMtx.RUnlock()
 
+	return c.write(b)
+}
+
+// write is Write for callers that hold proxyConnMtx.
+func (c *NoiseGrpcConn) write(b []byte) (int, error) {
 	err := c.noise.WriteMessage(b)
 	if err != nil {
 		return 0, err
